@@ -1,5 +1,6 @@
 import FordModel.Proto
 import FordModel.ProjectLoop
+import FordModel.EnumValues
 namespace Ford
 open Proto
 
@@ -76,6 +77,19 @@ def showState (st : ProjState) (names : List NameKey) : List Str :=
    match st.aborted with | some (n, e) => n ++ '=' :: errName e | none => [],
    'N' :: '=' :: showNames names]
 
+/-- enumerators of one ENUM block: pairs of fields, name and `~` (no value) or `=` ++ the text after `=` -/
+def enumeratorsOf : List Str → List EnumValues.Enumerator
+  | n :: i :: rest =>
+    { name := n, initial := (match i with | '=' :: t => some t | _ => none) } :: enumeratorsOf rest
+  | _ => []
+
+def showInt (i : Int) : Str := (toString i).toList
+
+def showEnum (es : List EnumValues.Enumerator) : List Str :=
+  match EnumValues.enumCleanup es with
+  | .ok vs => ["ok".toList, "values".toList, commaJoin (vs.map showInt)]
+  | .error n => ["ok".toList, "raised".toList, n]
+
 end C20D
 
 open C20D in
@@ -84,6 +98,18 @@ def dispatchC20 : List Str → Option (List Str)
     if cmd == "c20.parse".toList then
       match args with
       | d :: f :: r :: rest => some (showOutcome (parseFile (cfgOf d f r) (stmtsOf rest)))
+      | _ => some ["bad-request".toList]
+    else if cmd == "c20.enum".toList then
+      -- one ENUM block -> the values `_cleanup` works out | the enumerator it raises for
+      some (showEnum (enumeratorsOf args))
+    else if cmd == "c20.parseenums".toList then
+      -- cfg, statements | enumerators of the 1st ENUM block | of the 2nd ... -> outcome of the file's constructor
+      match args with
+      | d :: f :: r :: rest =>
+        match splitBar rest [] with
+        | ss :: enums => some (showOutcome (EnumValues.fileWithEnums (parseFile (cfgOf d f r) (stmtsOf ss))
+                                 ((enums.filter (fun l => !l.isEmpty)).map enumeratorsOf)))
+        | [] => some ["bad-request".toList]
       | _ => some ["bad-request".toList]
     else if cmd == "c20.row".toList then
       match args with
